@@ -1036,6 +1036,35 @@ impl<'a> FnTr<'a> {
     /// builder V: `while cond { body }` (no `break` / `return` / nested loop in the body): one step evaluates the
     /// condition and, when it holds, the body; `Rt.loopM LoopFuel.fuel` iterates it (`none` when the fuel is used up)
     fn while_fuel_loop(&mut self, w: &ExprWhile, before: &[Stmt], env: &mut Env, st: &mut Stmts) -> Res<()> {
+        // builder E (I/O mode): a `while` whose condition and body perform no I/O is an `Option` loop lifted
+        // into the I/O monad as a whole (`Rt.Phy.ofOpt`); an I/O action inside it does not type-check in Lean
+        // (`Option` vs `IoM`), a `?` inside is refused below
+        let lift = self.reg.io.borrow().mode && !self.reg.io.borrow().in_pure;
+        if lift {
+            struct HasTry(bool);
+            impl<'ast> syn::visit::Visit<'ast> for HasTry {
+                fn visit_expr_try(&mut self, _: &'ast ExprTry) {
+                    self.0 = true;
+                }
+                fn visit_expr_await(&mut self, _: &'ast ExprAwait) {
+                    self.0 = true;
+                }
+            }
+            let mut h = HasTry(false);
+            syn::visit::Visit::visit_expr_while(&mut h, w);
+            if h.0 {
+                return Err("while (I/O mode): `?` / `.await` inside the loop is not supported".into());
+            }
+            self.reg.io.borrow_mut().in_pure = true;
+        }
+        let r = self.while_fuel_loop_inner(w, before, env, st, lift);
+        if lift {
+            self.reg.io.borrow_mut().in_pure = false;
+        }
+        r
+    }
+
+    fn while_fuel_loop_inner(&mut self, w: &ExprWhile, before: &[Stmt], env: &mut Env, st: &mut Stmts, lift: bool) -> Res<()> {
         struct Bad(Option<String>);
         impl<'ast> syn::visit::Visit<'ast> for Bad {
             fn visit_expr(&mut self, e: &'ast Expr) {
@@ -1072,7 +1101,11 @@ impl<'a> FnTr<'a> {
             render_p(&step, 3, &mut body);
             body.push(')');
         }
-        st.push((tup.clone(), Rhs::Act(format!("Rt.loopM LoopFuel.fuel (fun {} => {}) <| {}", tup, body, tup))));
+        if lift {
+            st.push((tup.clone(), Rhs::Act(format!("Rt.Phy.ofOpt (Rt.loopM LoopFuel.fuel (fun {} => {}) <| {})", tup, body, tup))));
+        } else {
+            st.push((tup.clone(), Rhs::Act(format!("Rt.loopM LoopFuel.fuel (fun {} => {}) <| {}", tup, body, tup))));
+        }
         Ok(())
     }
 
